@@ -103,7 +103,7 @@ def url_stream(ctx):
         k = seen_mod.get(t.module, 0)
         seen_mod[t.module] = k + 1
         with_pos = ctx.thorough or k < 2
-        reps = 12 if ctx.thorough else 1
+        reps = 6 if ctx.thorough else 1
         for rep in range(reps):
             for cls, text in L.mutations(rng, url, name, h, w, body, n_edit, with_pos and rep == 0, names):
                 st.append((t, cls, text))
@@ -264,7 +264,15 @@ def correspond(ctx):
     outs = m.batch(["OKS " + k for k in toks])
     for k, o in zip(toks, outs):
         t = terms[k]
-        cmp(ctx, "side-conditions", k, ("ok", o.strip()), ("ok", "%d %d %d" % (int(L.dec_ok(t)), int(L.single(t)), int(G.wf(t)))))
+        cmp(ctx, "side-conditions", k, ("ok", o.strip()),
+            ("ok", "%d %d %d %d %d" % (int(L.dec_ok(t)), int(L.single(t)), int(G.wf(t)), int(L.tupl_elems_single(t)), int(L.productive(t)))))
+    # the regular expression itself: groups of _DESERIALIZE_URL_REG.match vs url_match
+    import cspuz.problem_serializer as ps
+    texts = sorted({text for (_, _, text) in st})
+    outs = m.batch(["UM " + G.hx(u) for u in texts])
+    for u, o in zip(texts, outs):
+        mm = ps._DESERIALIZE_URL_REG.match(u)
+        cmp(ctx, "regex", u, parse_model(o), ("ok", None if mm is None else (mm[1], mm[2], mm[3], mm[4])))
 
 
 # ---------------------------------------------------------------- search (real code only)
